@@ -27,6 +27,49 @@ SOURCES = {
 }
 
 
+def filter_scope_rule(ctx, program, rid):
+    """Two messages through the same filter evaluator: the scope the expression is evaluated in (AstEval.local_sym_table at the aeval call) after the second."""
+    m1 = DictV([(Const("trigger_type"), Const("event")), (Const("arg1"), Const(20)), (Const("arg2"), Const(30))])
+    m2 = DictV([(Const("trigger_type"), Const("event")), (Const("arg2"), Const(31))])
+    for uid, args, inl in (
+        ("trigger.py::TrigInfo._call_expression", lambda m: {"self": ObjV("self", "TrigInfo"), "ast_expr": ObjV("expr", "AstEval"), "notify_info": m},
+         {"ast_expr.eval", "AstEval.eval"}),
+        ("decorators/base.py::ExpressionDecorator.check_expression_vars", lambda m: {"self": ObjV("self", "ExpressionDecorator"), "state_vars": m},
+         {"self._ast_expression.eval", "AstEval.eval"}),
+    ):
+        seen = []
+
+        def aeval(i, n, a, k, c, o, seen=seen):
+            seen.append(c.heap.get("expr.local_sym_table"))
+            return [(c, Const(True))]
+
+        pol = FlowPolicy(program, may_raise_all=False, cancel=False, inline=inl,
+                         summaries={"self.aeval": aeval, "self.has_expression": lambda i, n, a, k, c, o: [(c, Const(True))]})
+        heap = {"expr.local_sym_table": DictV([(Const("print"), Sym(("fn", "print")))]), "expr.ast": ObjV("tree", "Expression"), "self._ast_expression": ObjV("expr", "AstEval")}
+        bad = None
+        for m in (m1, m2):
+            out = run_flow(program, uid, pol, args=args(m), heap=heap)
+            rets = [c for k, c, d in exits(out) if k == "return"]
+            if len(rets) != 1:
+                bad = f"{len(rets)} normal exits ({[d for k, c, d in exits(out)]})"
+                break
+            heap = dict(rets[0].heap)
+        if bad is None:
+            if len(seen) != 2 or not isinstance(seen[1], DictV):
+                bad = f"the expression was evaluated {len(seen)} time(s) for two messages"
+            else:
+                scope = {k.v: v for k, v in seen[1].items if isinstance(k, Const)}
+                stale = [k for k in ("arg1",) if k in scope]
+                wrong = [k for k, v in m2.items if scope.get(k.v) != v]
+                if stale:
+                    bad = f"the second message (no arg1) is filtered with the earlier message's {stale} = {[scope[k] for k in stale]} still defined"
+                elif wrong:
+                    bad = f"the second message's {[k.v for k in wrong]} are not what the expression sees ({scope})"
+        ctx.check(bad is None, rid, uid, "scope of the second of two messages",
+                  msg=f"{uid}: {bad}: a message lacking a key is judged with a stale value (a non-matching message can start a run)",
+                  key="filter scope per message", node=program.func(uid), rel=uid.split("::")[0])
+
+
 def _arg_keys(f):
     keys, updates = set(), []
     for n in body_walk(f):
@@ -204,6 +247,13 @@ def run(ctx):
     ctx.rule("R08.6", "shared source listeners: one bus/broker/webhook registration per subscribed type - made when the first subscriber arrives, "
              "released (handle called) when the last one leaves, so re-subscription never doubles the deliveries", floor=24)
     listener_table(ctx, program, "R08.6")
+    ctx.rule("R08.8", "the variables a filter expression sees are those of the current message only: a key carried by an earlier message and absent from this one is "
+             "not visible (both subsystems' evaluation helpers)", floor=2)
+    filter_scope_rule(ctx, program, "R08.8")
+    ctx.rule("R08.7", "no event listener of a function outlives it: a manager stopped while its start loop is suspended registers no further listener (an old and a new "
+             "definition would both run for each event)", floor=2)
+    from .c15 import start_typestate
+    start_typestate(ctx, program, "R08.7")
     return (
         "Static, source-only: sibling agreement of the six argument builders, aliasing rule on the four fan-out loops, def-use agreement between filter input and dispatched "
         "dictionary plus per-path dispatch counting (flow analysis), call-site rule for context=, ordering of context storage.  Not decided: loss, duplication or reordering under bursts."
